@@ -1,8 +1,1071 @@
-//! C12 runner (stub). Replace the body; keep the signature `pub fn run(args: &[String])`.
-#[allow(unused_imports)]
-use crate::common::{catch, each_line, opt_i64};
+//! C12 runner.
+//!
+//! `vharness run c12 scan <repo>`   — source scan: every place under src/frontend, src/backend, src/cli
+//!     where a HashMap/HashSet is iterated (for-loops, .iter()/.keys()/.values()/.drain()/... calls,
+//!     .extend(hash)), found with `syn` + a small local type inference.  One JSON object per line:
+//!     {"file","fn","recv","kind","n","line","ambiguous","sorted_after"}.
+//! `vharness run c12 cli <cmd> <args..>` — behave like the `incan` binary for one command, calling the
+//!     real `incan::cli::commands::*` / `test_runner::run_tests` entry points (stdout/stderr/exit code
+//!     are those of the real command implementation; clap parsing and the banner are not involved):
+//!       check <file> | emit <file> | build <file> <outdir> | fmt-diff <path> | fmt-check <path> |
+//!       test <dir> | collector <file>   (ModuleCollector::collect order, one path per line)
+//!     The determinism oracle spawns this in many fresh processes (fresh hash seeds), with different
+//!     cwd/environment, and compares bytes.
+use std::collections::{BTreeMap, HashMap};
+use std::path::{Path, PathBuf};
 
-pub fn run(_args: &[String]) {
-    eprintln!("c12: runner not implemented");
-    std::process::exit(2);
+use quote::ToTokens;
+use syn::visit::{self, Visit};
+
+// ------------------------------------------------------------------------------------------------
+// cli
+// ------------------------------------------------------------------------------------------------
+
+fn finish(r: incan::cli::CliResult<incan::cli::ExitCode>) -> ! {
+    match r {
+        Ok(code) => std::process::exit(code.0),
+        Err(e) => {
+            if !e.message.is_empty() {
+                eprintln!("{}", e.message);
+            }
+            std::process::exit(e.exit_code.0)
+        }
+    }
+}
+
+pub fn cli(args: &[String]) -> ! {
+    use incan::cli::commands;
+    let cmd = args.first().map(|s| s.as_str()).unwrap_or("");
+    let a1 = args.get(1).cloned().unwrap_or_default();
+    match cmd {
+        "check" => finish(commands::check_file(&a1)),
+        "emit" => finish(commands::emit_rust(&a1, false)),
+        "emit-strict" => finish(commands::emit_rust(&a1, true)),
+        "build" => {
+            let out = args.get(2).cloned();
+            finish(commands::build_file(&a1, out.as_ref()))
+        }
+        "fmt-diff" => finish(commands::format_files(&a1, false, true)),
+        "fmt-check" => finish(commands::format_files(&a1, true, false)),
+        "test" => finish(incan::cli::test_runner::run_tests(&a1, true, false, false, None, false, false)),
+        "collector" => {
+            let p = Path::new(&a1);
+            let mut c = incan::frontend::module::ModuleCollector::new(p);
+            match c.collect(p) {
+                Ok(mods) => {
+                    for m in mods {
+                        println!("{}", m.path.file_name().and_then(|s| s.to_str()).unwrap_or("?"));
+                    }
+                    std::process::exit(0)
+                }
+                Err(errs) => {
+                    for e in errs {
+                        eprintln!("{}", e.message);
+                    }
+                    std::process::exit(1)
+                }
+            }
+        }
+        _ => {
+            eprintln!("c12 cli: unknown command {:?}", cmd);
+            std::process::exit(2)
+        }
+    }
+}
+
+// ------------------------------------------------------------------------------------------------
+// scan
+// ------------------------------------------------------------------------------------------------
+
+#[derive(Clone, Debug, PartialEq)]
+struct Ty {
+    name: String,
+    args: Vec<Ty>,
+}
+
+impl Ty {
+    fn new(name: &str, args: Vec<Ty>) -> Ty {
+        Ty { name: name.to_string(), args }
+    }
+    fn unknown() -> Ty {
+        Ty::new("?", vec![])
+    }
+    fn is_unknown(&self) -> bool {
+        self.name == "?"
+    }
+    fn arg(&self, i: usize) -> Ty {
+        self.args.get(i).cloned().unwrap_or_else(Ty::unknown)
+    }
+    /// strip smart pointers / cells / Option (for "is this a hash collection")
+    fn peel(&self) -> &Ty {
+        let mut t = self;
+        while matches!(t.name.as_str(), "Box" | "Rc" | "Arc" | "RefCell" | "Cell" | "Mutex" | "RwLock" | "Option" | "Ref" | "RefMut" | "Cow")
+            && !t.args.is_empty()
+        {
+            t = &t.args[t.args.len() - 1];
+        }
+        t
+    }
+    fn is_hash(&self) -> bool {
+        matches!(self.peel().name.as_str(), "HashMap" | "HashSet")
+    }
+    /// element type when iterated
+    fn elem(&self) -> Ty {
+        let t = self.peel();
+        match t.name.as_str() {
+            "HashMap" | "BTreeMap" => Ty::new("(tuple)", vec![t.arg(0), t.arg(1)]),
+            "HashSet" | "BTreeSet" | "Vec" | "VecDeque" | "(iter)" => t.arg(0),
+            _ => Ty::unknown(),
+        }
+    }
+}
+
+fn ty_of_syn(t: &syn::Type) -> Ty {
+    match t {
+        syn::Type::Reference(r) => ty_of_syn(&r.elem),
+        syn::Type::Paren(p) => ty_of_syn(&p.elem),
+        syn::Type::Group(p) => ty_of_syn(&p.elem),
+        syn::Type::Slice(s) => Ty::new("Vec", vec![ty_of_syn(&s.elem)]),
+        syn::Type::Array(s) => Ty::new("Vec", vec![ty_of_syn(&s.elem)]),
+        syn::Type::Tuple(t) => Ty::new("(tuple)", t.elems.iter().map(ty_of_syn).collect()),
+        syn::Type::Path(p) => {
+            let Some(seg) = p.path.segments.last() else { return Ty::unknown() };
+            let mut args = vec![];
+            if let syn::PathArguments::AngleBracketed(ab) = &seg.arguments {
+                for a in &ab.args {
+                    if let syn::GenericArgument::Type(t) = a {
+                        args.push(ty_of_syn(t));
+                    }
+                }
+            }
+            Ty::new(&seg.ident.to_string(), args)
+        }
+        syn::Type::ImplTrait(_) | syn::Type::TraitObject(_) => Ty::unknown(),
+        _ => Ty::unknown(),
+    }
+}
+
+#[derive(Default)]
+struct StructDef {
+    generics: Vec<String>,
+    fields: BTreeMap<String, Ty>,
+    tuple: Vec<Ty>,
+}
+
+#[derive(Default)]
+struct Tables {
+    structs: HashMap<String, Vec<StructDef>>,
+    /// `use a::b as c` renames: c -> b (per file)
+    renames: HashMap<(String, String), (String, String)>,
+    /// enum name -> variant -> (tuple payload, named fields)
+    enums: HashMap<String, (Vec<String>, HashMap<String, StructDef>)>,
+    /// fn/method name -> list of (file, self type, return type)
+    fns: HashMap<String, Vec<(String, Option<String>, Ty)>>,
+    /// field name -> (#decls where it is a hash collection, #decls where it is not)
+    field_hash: HashMap<String, (usize, usize)>,
+    aliases: HashMap<String, Ty>,
+}
+
+fn generics_of(g: &syn::Generics) -> Vec<String> {
+    g.params
+        .iter()
+        .filter_map(|p| if let syn::GenericParam::Type(t) = p { Some(t.ident.to_string()) } else { None })
+        .collect()
+}
+
+fn struct_def(generics: &syn::Generics, fields: &syn::Fields) -> StructDef {
+    let mut d = StructDef { generics: generics_of(generics), ..Default::default() };
+    match fields {
+        syn::Fields::Named(n) => {
+            for f in &n.named {
+                if let Some(id) = &f.ident {
+                    d.fields.insert(id.to_string(), ty_of_syn(&f.ty));
+                }
+            }
+        }
+        syn::Fields::Unnamed(u) => {
+            for f in &u.unnamed {
+                d.tuple.push(ty_of_syn(&f.ty));
+            }
+        }
+        syn::Fields::Unit => {}
+    }
+    d
+}
+
+fn is_test_attr(attrs: &[syn::Attribute]) -> bool {
+    attrs.iter().any(|a| {
+        let s = a.to_token_stream().to_string().replace(' ', "");
+        s.contains("cfg(test)") || s == "#[test]"
+    })
+}
+
+impl Tables {
+    fn add_items(&mut self, file: &str, items: &[syn::Item], self_ty: Option<&str>) {
+        for it in items {
+            match it {
+                syn::Item::Struct(s) if !is_test_attr(&s.attrs) => {
+                    let d = struct_def(&s.generics, &s.fields);
+                    for (n, t) in &d.fields {
+                        let e = self.field_hash.entry(n.clone()).or_default();
+                        if t.is_hash() {
+                            e.0 += 1
+                        } else {
+                            e.1 += 1
+                        }
+                    }
+                    self.structs.entry(s.ident.to_string()).or_default().push(d);
+                }
+                syn::Item::Enum(e) if !is_test_attr(&e.attrs) => {
+                    let mut vs = HashMap::new();
+                    for v in &e.variants {
+                        let d = struct_def(&e.generics, &v.fields);
+                        for (n, t) in &d.fields {
+                            let en = self.field_hash.entry(n.clone()).or_default();
+                            if t.is_hash() {
+                                en.0 += 1
+                            } else {
+                                en.1 += 1
+                            }
+                        }
+                        vs.insert(v.ident.to_string(), d);
+                    }
+                    self.enums.insert(e.ident.to_string(), (generics_of(&e.generics), vs));
+                }
+                syn::Item::Use(u) => {
+                    fn walk(t: &syn::UseTree, file: &str, module: &str, out: &mut HashMap<(String, String), (String, String)>) {
+                        match t {
+                            syn::UseTree::Path(p) => walk(&p.tree, file, &p.ident.to_string(), out),
+                            syn::UseTree::Group(g) => g.items.iter().for_each(|i| walk(i, file, module, out)),
+                            syn::UseTree::Rename(r) => {
+                                out.insert((file.to_string(), r.rename.to_string()), (r.ident.to_string(), module.to_string()));
+                            }
+                            syn::UseTree::Name(n) => {
+                                out.insert((file.to_string(), n.ident.to_string()), (n.ident.to_string(), module.to_string()));
+                            }
+                            _ => {}
+                        }
+                    }
+                    walk(&u.tree, file, "", &mut self.renames);
+                }
+                syn::Item::Type(t) => {
+                    self.aliases.insert(t.ident.to_string(), ty_of_syn(&t.ty));
+                }
+                syn::Item::Fn(f) if !is_test_attr(&f.attrs) => {
+                    if let syn::ReturnType::Type(_, t) = &f.sig.output {
+                        self.fns.entry(f.sig.ident.to_string()).or_default().push((
+                            file.to_string(),
+                            self_ty.map(|s| s.to_string()),
+                            ty_of_syn(t),
+                        ));
+                    }
+                }
+                syn::Item::Impl(im) if !is_test_attr(&im.attrs) => {
+                    let st = ty_of_syn(&im.self_ty).name;
+                    for ii in &im.items {
+                        if let syn::ImplItem::Fn(f) = ii {
+                            if let syn::ReturnType::Type(_, t) = &f.sig.output {
+                                let mut rt = ty_of_syn(t);
+                                if rt.name == "Self" {
+                                    rt = Ty::new(&st, vec![]);
+                                }
+                                self.fns.entry(f.sig.ident.to_string()).or_default().push((
+                                    file.to_string(),
+                                    Some(st.clone()),
+                                    rt,
+                                ));
+                            }
+                        }
+                    }
+                }
+                syn::Item::Mod(m) if !is_test_attr(&m.attrs) => {
+                    if let Some((_, items)) = &m.content {
+                        self.add_items(file, items, None);
+                    }
+                }
+                _ => {}
+            }
+        }
+    }
+
+    fn resolve_alias(&self, t: Ty) -> Ty {
+        if t.args.is_empty() && !self.structs.contains_key(&t.name) && !self.enums.contains_key(&t.name) {
+            if let Some(a) = self.aliases.get(&t.name) {
+                return a.clone();
+            }
+        }
+        t
+    }
+
+    fn subst(&self, generics: &[String], args: &[Ty], t: &Ty) -> Ty {
+        if let Some(i) = generics.iter().position(|g| *g == t.name) {
+            return args.get(i).cloned().unwrap_or_else(Ty::unknown);
+        }
+        Ty { name: t.name.clone(), args: t.args.iter().map(|a| self.subst(generics, args, a)).collect() }
+    }
+
+    /// type of `base.field` and whether the answer is ambiguous (several structs of that name disagree);
+    /// None when the base type is unknown or has no such field
+    fn field_ty(&self, base: &Ty, field: &str) -> Option<(Ty, bool)> {
+        let mut b = base;
+        while matches!(b.name.as_str(), "Box" | "Rc" | "Arc" | "Ref" | "RefMut") && !b.args.is_empty() {
+            b = &b.args[0];
+        }
+        if b.name == "(tuple)" {
+            return field.parse::<usize>().ok().map(|i| (b.arg(i), false));
+        }
+        let defs = self.structs.get(&b.name)?;
+        let mut found: Vec<Ty> = vec![];
+        for d in defs {
+            let t = if let Ok(i) = field.parse::<usize>() { d.tuple.get(i) } else { d.fields.get(field) };
+            if let Some(t) = t {
+                found.push(self.resolve_alias(self.subst(&d.generics, &b.args, t)));
+            }
+        }
+        if found.is_empty() {
+            return None;
+        }
+        if found.iter().all(|t| *t == found[0]) {
+            return Some((found[0].clone(), false));
+        }
+        if let Some(h) = found.iter().find(|t| t.is_hash()) {
+            return Some((h.clone(), true));
+        }
+        Some((Ty::unknown(), false))
+    }
+
+    fn fn_ret(&self, name: &str, file: &str, self_ty: Option<&str>) -> Option<Ty> {
+        let imported = self.renames.get(&(file.to_string(), name.to_string()));
+        let name = imported.map(|s| s.0.as_str()).unwrap_or(name);
+        let cands = self.fns.get(name)?;
+        if let (Some((_, module)), None) = (imported, self_ty) {
+            let a = format!("/{}.rs", module);
+            let b = format!("/{}/mod.rs", module);
+            if let Some(c) = cands.iter().find(|c| c.1.is_none() && (c.0.ends_with(&a) || c.0.ends_with(&b))) {
+                return Some(self.resolve_alias(c.2.clone()));
+            }
+        }
+        if let Some(st) = self_ty {
+            if let Some(c) = cands.iter().find(|c| c.1.as_deref() == Some(st)) {
+                return Some(self.resolve_alias(c.2.clone()));
+            }
+        }
+        if let Some(c) = cands.iter().find(|c| c.0 == file) {
+            return Some(self.resolve_alias(c.2.clone()));
+        }
+        if cands.len() == 1 || cands.iter().all(|c| c.2 == cands[0].2) {
+            return Some(self.resolve_alias(cands[0].2.clone()));
+        }
+        // ambiguous: only keep the information "hash or not" if all candidates agree
+        if cands.iter().all(|c| c.2.is_hash()) {
+            return Some(cands[0].2.clone());
+        }
+        None
+    }
+}
+
+const ITER_METHODS: &[&str] = &[
+    "iter", "iter_mut", "keys", "values", "values_mut", "into_iter", "into_keys", "into_values", "drain", "retain", "extract_if",
+];
+const PASS_METHODS: &[&str] = &[
+    "clone", "as_ref", "as_mut", "as_deref", "as_deref_mut", "borrow", "borrow_mut", "to_owned", "iter", "iter_mut", "into_iter", "rev",
+    "skip", "take", "cloned", "copied", "by_ref", "peekable", "lock", "read", "write", "to_vec", "as_slice", "filter", "skip_while",
+    "take_while", "step_by", "chain", "inspect",
+];
+const UNWRAP_METHODS: &[&str] = &[
+    "unwrap", "expect", "unwrap_or_default", "unwrap_or", "unwrap_or_else", "unwrap_unchecked",
+];
+
+struct Site {
+    file: String,
+    func: String,
+    recv: String,
+    kind: String,
+    line: usize,
+    ambiguous: bool,
+    sorted_after: bool,
+}
+
+struct Scanner<'t> {
+    t: &'t Tables,
+    file: String,
+    self_ty: Option<String>,
+    func: String,
+    env: Vec<HashMap<String, Ty>>,
+    sites: Vec<Site>,
+    /// statements following the current one in the enclosing blocks (innermost last), as token text
+    followers: Vec<Vec<String>>,
+    /// the variable bound by the enclosing `let` (for sorted_after)
+    let_var: Vec<Option<String>>,
+}
+
+fn norm(ts: impl ToTokens) -> String {
+    ts.to_token_stream().to_string().replace(' ', "")
+}
+
+fn strip_expr(e: &syn::Expr) -> &syn::Expr {
+    match e {
+        syn::Expr::Reference(r) => strip_expr(&r.expr),
+        syn::Expr::Paren(p) => strip_expr(&p.expr),
+        syn::Expr::Group(p) => strip_expr(&p.expr),
+        syn::Expr::Unary(u) if matches!(u.op, syn::UnOp::Deref(_)) => strip_expr(&u.expr),
+        _ => e,
+    }
+}
+
+impl<'t> Scanner<'t> {
+    fn lookup(&self, name: &str) -> Option<Ty> {
+        for s in self.env.iter().rev() {
+            if let Some(t) = s.get(name) {
+                return Some(t.clone());
+            }
+        }
+        None
+    }
+
+    fn bind_name(&mut self, name: String, ty: Ty) {
+        if let Some(s) = self.env.last_mut() {
+            s.insert(name, ty);
+        }
+    }
+
+    fn bind(&mut self, pat: &syn::Pat, ty: &Ty) {
+        match pat {
+            syn::Pat::Ident(i) => {
+                self.bind_name(i.ident.to_string(), ty.clone());
+                if let Some((_, sub)) = &i.subpat {
+                    self.bind(sub, ty);
+                }
+            }
+            syn::Pat::Reference(r) => self.bind(&r.pat, ty),
+            syn::Pat::Paren(p) => self.bind(&p.pat, ty),
+            syn::Pat::Type(t) => {
+                let tt = self.t.resolve_alias(ty_of_syn(&t.ty));
+                self.bind(&t.pat, &tt)
+            }
+            syn::Pat::Tuple(t) => {
+                for (i, p) in t.elems.iter().enumerate() {
+                    let et = if ty.name == "(tuple)" { ty.arg(i) } else { Ty::unknown() };
+                    self.bind(p, &et);
+                }
+            }
+            syn::Pat::Or(o) => {
+                for c in &o.cases {
+                    self.bind(c, ty);
+                }
+            }
+            syn::Pat::TupleStruct(ts) => {
+                let segs: Vec<String> = ts.path.segments.iter().map(|s| s.ident.to_string()).collect();
+                let last = segs.last().cloned().unwrap_or_default();
+                let payload: Vec<Ty> = match last.as_str() {
+                    "Some" => vec![ty.peel_one("Option")],
+                    "Ok" => vec![ty.peel_one("Result")],
+                    "Err" => vec![if ty.name == "Result" { ty.arg(1) } else { Ty::unknown() }],
+                    _ => self.variant_payload(&segs, ty).map(|d| d.0).unwrap_or_default(),
+                };
+                for (i, p) in ts.elems.iter().enumerate() {
+                    let et = payload.get(i).cloned().unwrap_or_else(Ty::unknown);
+                    self.bind(p, &et);
+                }
+            }
+            syn::Pat::Struct(ps) => {
+                let segs: Vec<String> = ps.path.segments.iter().map(|s| s.ident.to_string()).collect();
+                let named: BTreeMap<String, Ty> = if let Some(d) = self.variant_payload(&segs, ty) {
+                    d.1
+                } else if let Some(d) = self.t.structs.get(segs.last().map(|s| s.as_str()).unwrap_or("")).and_then(|v| v.first()) {
+                    d.fields.iter().map(|(k, v)| (k.clone(), self.t.subst(&d.generics, &ty.args, v))).collect()
+                } else {
+                    BTreeMap::new()
+                };
+                for f in &ps.fields {
+                    let n = match &f.member {
+                        syn::Member::Named(i) => i.to_string(),
+                        syn::Member::Unnamed(i) => i.index.to_string(),
+                    };
+                    let ft = named.get(&n).cloned().unwrap_or_else(Ty::unknown);
+                    self.bind(&f.pat, &ft);
+                }
+            }
+            syn::Pat::Slice(s) => {
+                let et = ty.elem();
+                for p in &s.elems {
+                    self.bind(p, &et);
+                }
+            }
+            _ => {}
+        }
+    }
+
+    /// payload types of an enum variant pattern path (`Enum::Variant`, `Self::Variant`, `Variant`)
+    fn variant_payload(&self, segs: &[String], scrut: &Ty) -> Option<(Vec<Ty>, BTreeMap<String, Ty>)> {
+        let variant = segs.last()?;
+        let mut enum_name: Option<String> = None;
+        if segs.len() >= 2 {
+            let e = &segs[segs.len() - 2];
+            if e == "Self" {
+                enum_name = self.self_ty.clone();
+            } else if self.t.enums.contains_key(e) {
+                enum_name = Some(e.clone());
+            }
+        }
+        if enum_name.is_none() && self.t.enums.contains_key(&scrut.peel().name) {
+            enum_name = Some(scrut.peel().name.clone());
+        }
+        if enum_name.is_none() {
+            let owners: Vec<&String> = self.t.enums.iter().filter(|(_, (_, vs))| vs.contains_key(variant)).map(|(n, _)| n).collect();
+            if owners.len() == 1 {
+                enum_name = Some(owners[0].clone());
+            }
+        }
+        let (generics, vs) = self.t.enums.get(&enum_name?)?;
+        let d = vs.get(variant)?;
+        let args = &scrut.peel().args;
+        Some((
+            d.tuple.iter().map(|t| self.t.resolve_alias(self.t.subst(generics, args, t))).collect(),
+            d.fields.iter().map(|(k, v)| (k.clone(), self.t.resolve_alias(self.t.subst(generics, args, v)))).collect(),
+        ))
+    }
+
+    /// (type, ambiguous): ambiguous = decided by field NAME only (base type unknown, and the name is a
+    /// hash collection in some declarations but not in others)
+    fn ty_of(&self, e: &syn::Expr) -> (Ty, bool) {
+        match e {
+            syn::Expr::Reference(r) => self.ty_of(&r.expr),
+            syn::Expr::Paren(p) => self.ty_of(&p.expr),
+            syn::Expr::Group(p) => self.ty_of(&p.expr),
+            syn::Expr::Unary(u) => self.ty_of(&u.expr),
+            syn::Expr::Cast(c) => (ty_of_syn(&c.ty), false),
+            syn::Expr::Try(t) => {
+                let (b, a) = self.ty_of(&t.expr);
+                (if b.name == "Option" || b.name == "Result" { b.arg(0) } else { Ty::unknown() }, a)
+            }
+            syn::Expr::Path(p) => {
+                if p.path.segments.len() == 1 {
+                    let n = p.path.segments[0].ident.to_string();
+                    if n == "self" {
+                        if let Some(st) = &self.self_ty {
+                            return (Ty::new(st, vec![]), false);
+                        }
+                    }
+                    if let Some(t) = self.lookup(&n) {
+                        return (t, false);
+                    }
+                }
+                (Ty::unknown(), false)
+            }
+            syn::Expr::Field(f) => {
+                let (b, amb) = self.ty_of(&f.base);
+                let n = match &f.member {
+                    syn::Member::Named(i) => i.to_string(),
+                    syn::Member::Unnamed(i) => i.index.to_string(),
+                };
+                if let Some((t, a2)) = self.t.field_ty(&b, &n) {
+                    return (t, amb || a2);
+                }
+                if !b.is_unknown() && (self.t.structs.contains_key(&b.name) || b.name == "(tuple)") {
+                    return (Ty::unknown(), false);
+                }
+                // base type unknown: decide by the field name over all declarations
+                match self.t.field_hash.get(&n) {
+                    Some((h, 0)) if *h > 0 => (Ty::new("HashMap", vec![]), false),
+                    Some((h, _)) if *h > 0 => (Ty::new("HashMap", vec![]), true),
+                    _ => (Ty::unknown(), false),
+                }
+            }
+            syn::Expr::Index(i) => {
+                let (b, a) = self.ty_of(&i.expr);
+                let p = b.peel();
+                let t = match p.name.as_str() {
+                    "Vec" | "VecDeque" => {
+                        if matches!(&*i.index, syn::Expr::Range(_)) {
+                            p.clone()
+                        } else {
+                            p.arg(0)
+                        }
+                    }
+                    "HashMap" | "BTreeMap" => p.arg(1),
+                    _ => Ty::unknown(),
+                };
+                (t, a)
+            }
+            syn::Expr::Struct(s) => (Ty::new(&s.path.segments.last().map(|s| s.ident.to_string()).unwrap_or_default(), vec![]), false),
+            syn::Expr::Macro(m) => {
+                let n = m.mac.path.segments.last().map(|s| s.ident.to_string()).unwrap_or_default();
+                (if n == "vec" { Ty::new("Vec", vec![Ty::unknown()]) } else { Ty::unknown() }, false)
+            }
+            syn::Expr::Block(b) => match b.block.stmts.last() {
+                Some(syn::Stmt::Expr(e, None)) => self.ty_of(e),
+                _ => (Ty::unknown(), false),
+            },
+            syn::Expr::If(i) => match i.then_branch.stmts.last() {
+                Some(syn::Stmt::Expr(e, None)) => self.ty_of(e),
+                _ => (Ty::unknown(), false),
+            },
+            syn::Expr::Call(c) => {
+                let syn::Expr::Path(p) = &*c.func else { return (Ty::unknown(), false) };
+                let segs: Vec<String> = p.path.segments.iter().map(|s| s.ident.to_string()).collect();
+                let last = segs.last().cloned().unwrap_or_default();
+                let prev = if segs.len() >= 2 { Some(segs[segs.len() - 2].clone()) } else { None };
+                if last == "Some" && c.args.len() == 1 {
+                    let (t, a) = self.ty_of(&c.args[0]);
+                    return (Ty::new("Option", vec![t]), a);
+                }
+                if (last == "Ok") && c.args.len() == 1 {
+                    let (t, a) = self.ty_of(&c.args[0]);
+                    return (Ty::new("Result", vec![t]), a);
+                }
+                if (last == "take" || last == "replace") && prev.as_deref() == Some("mem") && !c.args.is_empty() {
+                    return self.ty_of(&c.args[0]);
+                }
+                if let Some(pv) = &prev {
+                    if matches!(pv.as_str(), "HashMap" | "HashSet" | "Vec" | "BTreeMap" | "BTreeSet" | "VecDeque") {
+                        // HashMap::new(), HashSet::with_capacity(..), HashSet::from(..), ...
+                        let mut args = vec![];
+                        if let Some(seg) = p.path.segments.iter().rev().nth(1) {
+                            if let syn::PathArguments::AngleBracketed(ab) = &seg.arguments {
+                                for a in &ab.args {
+                                    if let syn::GenericArgument::Type(t) = a {
+                                        args.push(ty_of_syn(t));
+                                    }
+                                }
+                            }
+                        }
+                        return (Ty::new(pv, args), false);
+                    }
+                    let pvn = if pv == "Self" { self.self_ty.clone().unwrap_or_default() } else { pv.clone() };
+                    if let Some(t) = self.t.fn_ret(&last, &self.file, Some(&pvn)) {
+                        return (t, false);
+                    }
+                    if self.t.structs.contains_key(&pvn) && matches!(last.as_str(), "new" | "default") {
+                        return (Ty::new(&pvn, vec![]), false);
+                    }
+                    return (Ty::unknown(), false);
+                }
+                (self.t.fn_ret(&last, &self.file, None).unwrap_or_else(Ty::unknown), false)
+            }
+            syn::Expr::MethodCall(m) => {
+                let name = m.method.to_string();
+                let (r, amb) = self.ty_of(&m.receiver);
+                let rp = r.peel().clone();
+                if name == "collect" || name == "into" || name == "parse" || name == "sum" {
+                    if let Some(tf) = &m.turbofish {
+                        for a in &tf.args {
+                            if let syn::GenericArgument::Type(t) = a {
+                                return (ty_of_syn(t), false);
+                            }
+                        }
+                    }
+                    return (Ty::unknown(), false);
+                }
+                if r.is_unknown() {
+                    // a user method with a known (unique) return type
+                    if let Some(t) = self.t.fn_ret(&name, &self.file, None) {
+                        if !PASS_METHODS.contains(&name.as_str()) && !UNWRAP_METHODS.contains(&name.as_str()) {
+                            return (t, false);
+                        }
+                    }
+                    return (Ty::unknown(), false);
+                }
+                if UNWRAP_METHODS.contains(&name.as_str()) {
+                    if r.name == "Option" || r.name == "Result" {
+                        return (r.arg(0), amb);
+                    }
+                    return (r, amb);
+                }
+                match name.as_str() {
+                    "ok_or" | "ok_or_else" if r.name == "Option" => return (Ty::new("Result", vec![r.arg(0)]), amb),
+                    "ok" if r.name == "Result" => return (Ty::new("Option", vec![r.arg(0)]), amb),
+                    "keys" | "into_keys" if matches!(rp.name.as_str(), "HashMap" | "BTreeMap") => {
+                        return (Ty::new("(iter)", vec![rp.arg(0)]), amb)
+                    }
+                    "values" | "values_mut" | "into_values" if matches!(rp.name.as_str(), "HashMap" | "BTreeMap") => {
+                        return (Ty::new("(iter)", vec![rp.arg(1)]), amb)
+                    }
+                    "drain" if rp.is_hash() => return (rp.clone(), amb),
+                    "get" | "get_mut" | "remove" if matches!(rp.name.as_str(), "HashMap" | "BTreeMap") => {
+                        return (Ty::new("Option", vec![rp.arg(1)]), amb)
+                    }
+                    "get" | "get_mut" | "first" | "last" | "pop" | "first_mut" | "last_mut" | "next" | "find" | "max" | "min"
+                        if matches!(rp.name.as_str(), "Vec" | "VecDeque" | "(iter)" | "HashSet") =>
+                    {
+                        return (Ty::new("Option", vec![rp.arg(0)]), amb)
+                    }
+                    "enumerate" => {
+                        return (Ty::new("(iter)", vec![Ty::new("(tuple)", vec![Ty::new("usize", vec![]), r.elem()])]), amb)
+                    }
+                    "entry" if rp.name == "HashMap" => return (Ty::new("(entry)", vec![rp.arg(1)]), amb),
+                    "or_default" | "or_insert" | "or_insert_with" if rp.name == "(entry)" => return (rp.arg(0), amb),
+                    _ => {}
+                }
+                if PASS_METHODS.contains(&name.as_str()) {
+                    return (r, amb);
+                }
+                if let Some(t) = self.t.fn_ret(&name, &self.file, Some(&rp.name)) {
+                    if self.t.fns.get(&name).is_some_and(|c| c.iter().any(|x| x.1.as_deref() == Some(rp.name.as_str()))) {
+                        return (t, false);
+                    }
+                }
+                (Ty::unknown(), false)
+            }
+            _ => (Ty::unknown(), false),
+        }
+    }
+
+    fn sorted_after(&self, var: Option<&str>) -> bool {
+        // does any following statement (or the enclosing loop body) sort `var`, or collect into a BTree?
+        let Some(v) = var else { return false };
+        let pats = [format!("{}.sort", v), format!("{}.sort_by", v), format!("{}.sort_unstable", v)];
+        self.followers.iter().flatten().any(|s| pats.iter().any(|p| s.contains(p.as_str())))
+    }
+
+    fn site(&mut self, recv: &syn::Expr, kind: &str, line: usize, ambiguous: bool, sort_var: Option<String>) {
+        let sorted = self.sorted_after(sort_var.as_deref());
+        self.sites.push(Site {
+            file: self.file.clone(),
+            func: self.func.clone(),
+            recv: norm(strip_expr(recv)),
+            kind: kind.to_string(),
+            line,
+            ambiguous,
+            sorted_after: sorted,
+        });
+    }
+
+    fn with_scope(&mut self, f: impl FnOnce(&mut Self)) {
+        self.env.push(HashMap::new());
+        f(self);
+        self.env.pop();
+    }
+
+    fn visit_fn_like(&mut self, name: String, sig: &syn::Signature, block: &syn::Block) {
+        let saved = std::mem::replace(&mut self.func, name);
+        self.with_scope(|s| {
+            for inp in &sig.inputs {
+                if let syn::FnArg::Typed(pt) = inp {
+                    let t = s.t.resolve_alias(ty_of_syn(&pt.ty));
+                    s.bind(&pt.pat, &t);
+                }
+            }
+            s.visit_block(block);
+        });
+        self.func = saved;
+    }
+}
+
+trait PeelOne {
+    fn peel_one(&self, w: &str) -> Ty;
+}
+impl PeelOne for Ty {
+    fn peel_one(&self, w: &str) -> Ty {
+        let mut t = self;
+        while matches!(t.name.as_str(), "Box" | "Rc" | "Arc" | "Ref" | "RefMut") && !t.args.is_empty() {
+            t = &t.args[0];
+        }
+        if t.name == w { t.arg(0) } else { Ty::unknown() }
+    }
+}
+
+impl<'ast, 't> Visit<'ast> for Scanner<'t> {
+    fn visit_item_fn(&mut self, f: &'ast syn::ItemFn) {
+        if is_test_attr(&f.attrs) {
+            return;
+        }
+        let name = match &self.self_ty {
+            Some(st) => format!("{}::{}", st, f.sig.ident),
+            None => f.sig.ident.to_string(),
+        };
+        let name = if self.func.is_empty() { name } else { format!("{}/{}", self.func, f.sig.ident) };
+        self.visit_fn_like(name, &f.sig, &f.block);
+    }
+
+    fn visit_item_impl(&mut self, im: &'ast syn::ItemImpl) {
+        if is_test_attr(&im.attrs) {
+            return;
+        }
+        let saved = self.self_ty.replace(ty_of_syn(&im.self_ty).name);
+        for ii in &im.items {
+            if let syn::ImplItem::Fn(f) = ii {
+                if is_test_attr(&f.attrs) {
+                    continue;
+                }
+                let name = format!("{}::{}", self.self_ty.clone().unwrap_or_default(), f.sig.ident);
+                self.visit_fn_like(name, &f.sig, &f.block);
+            }
+        }
+        self.self_ty = saved;
+    }
+
+    fn visit_item_mod(&mut self, m: &'ast syn::ItemMod) {
+        if is_test_attr(&m.attrs) {
+            return;
+        }
+        visit::visit_item_mod(self, m);
+    }
+
+    fn visit_block(&mut self, b: &'ast syn::Block) {
+        self.with_scope(|s| {
+            for (i, st) in b.stmts.iter().enumerate() {
+                let rest: Vec<String> = b.stmts[i + 1..].iter().map(norm).collect();
+                s.followers.push(rest);
+                s.visit_stmt(st);
+                s.followers.pop();
+            }
+        });
+    }
+
+    fn visit_local(&mut self, l: &'ast syn::Local) {
+        let var = match &l.pat {
+            syn::Pat::Ident(i) => Some(i.ident.to_string()),
+            syn::Pat::Type(t) => match &*t.pat {
+                syn::Pat::Ident(i) => Some(i.ident.to_string()),
+                _ => None,
+            },
+            _ => None,
+        };
+        self.let_var.push(var);
+        let mut init_ty = Ty::unknown();
+        if let Some(init) = &l.init {
+            self.visit_expr(&init.expr);
+            init_ty = self.ty_of(&init.expr).0;
+            if let Some((_, div)) = &init.diverge {
+                self.visit_expr(div);
+            }
+        }
+        self.let_var.pop();
+        let pat = l.pat.clone();
+        self.bind(&pat, &init_ty);
+    }
+
+    fn visit_expr_for_loop(&mut self, f: &'ast syn::ExprForLoop) {
+        let (t, amb) = self.ty_of(&f.expr);
+        let inner = strip_expr(&f.expr);
+        let is_iter_call = matches!(inner, syn::Expr::MethodCall(m) if ITER_METHODS.contains(&m.method.to_string().as_str()));
+        let line = f.for_token.span.start().line;
+        // loop body is the "follower" for sorted_after of the loop variable (e.g. `for subs in m.values_mut() { subs.sort() }`)
+        let loop_var = match &*f.pat {
+            syn::Pat::Ident(i) => Some(i.ident.to_string()),
+            _ => None,
+        };
+        self.followers.push(vec![norm(&f.body)]);
+        self.let_var.push(loop_var.clone());
+        if t.is_hash() && !is_iter_call {
+            self.site(&f.expr, "for", line, amb, loop_var.clone());
+        }
+        self.visit_expr(&f.expr);
+        self.let_var.pop();
+        self.followers.pop();
+        let et = t.elem();
+        self.with_scope(|s| {
+            s.bind(&f.pat, &et);
+            s.visit_block(&f.body);
+        });
+    }
+
+    fn visit_expr_method_call(&mut self, m: &'ast syn::ExprMethodCall) {
+        let name = m.method.to_string();
+        let line = m.method.span().start().line;
+        if ITER_METHODS.contains(&name.as_str()) {
+            let (t, amb) = self.ty_of(&m.receiver);
+            if t.is_hash() {
+                let var = self.let_var.last().cloned().flatten();
+                self.site(&m.receiver, &format!("method:{}", name), line, amb, var);
+            }
+        }
+        if name == "extend" || name == "append" {
+            for a in &m.args {
+                let (t, amb) = self.ty_of(a);
+                if t.is_hash() && !matches!(strip_expr(a), syn::Expr::MethodCall(mm) if ITER_METHODS.contains(&mm.method.to_string().as_str())) {
+                    let recv_is_hash = self.ty_of(&m.receiver).0.is_hash();
+                    self.site(a, if recv_is_hash { "extend-into-hash" } else { "extend-arg" }, line, amb, None);
+                }
+            }
+        }
+        // closure parameters of iterator adaptors get the element type
+        self.visit_expr(&m.receiver);
+        let elem = self.ty_of(&m.receiver).0.elem();
+        for a in &m.args {
+            if let syn::Expr::Closure(c) = a {
+                if matches!(
+                    name.as_str(),
+                    "map" | "filter" | "filter_map" | "any" | "all" | "find" | "for_each" | "position" | "flat_map" | "find_map" | "inspect"
+                        | "retain" | "take_while" | "skip_while" | "is_some_and" | "is_ok_and" | "and_then"
+                ) && c.inputs.len() == 1
+                {
+                    let et = if matches!(name.as_str(), "is_some_and" | "and_then") {
+                        self.ty_of(&m.receiver).0.peel_one("Option")
+                    } else {
+                        elem.clone()
+                    };
+                    self.with_scope(|s| {
+                        s.bind(&c.inputs[0], &et);
+                        s.visit_expr(&c.body);
+                    });
+                    continue;
+                }
+            }
+            self.visit_expr(a);
+        }
+    }
+
+    fn visit_expr_if(&mut self, i: &'ast syn::ExprIf) {
+        self.with_scope(|s| {
+            s.visit_expr(&i.cond);
+            s.visit_block(&i.then_branch);
+        });
+        if let Some((_, e)) = &i.else_branch {
+            self.visit_expr(e);
+        }
+    }
+
+    fn visit_expr_while(&mut self, w: &'ast syn::ExprWhile) {
+        self.with_scope(|s| {
+            s.visit_expr(&w.cond);
+            s.visit_block(&w.body);
+        });
+    }
+
+    fn visit_expr_let(&mut self, l: &'ast syn::ExprLet) {
+        self.visit_expr(&l.expr);
+        let t = self.ty_of(&l.expr).0;
+        let pat = (*l.pat).clone();
+        self.bind(&pat, &t);
+    }
+
+    fn visit_expr_match(&mut self, m: &'ast syn::ExprMatch) {
+        self.visit_expr(&m.expr);
+        let t = self.ty_of(&m.expr).0;
+        for arm in &m.arms {
+            self.with_scope(|s| {
+                s.bind(&arm.pat, &t);
+                if let Some((_, g)) = &arm.guard {
+                    s.visit_expr(g);
+                }
+                s.visit_expr(&arm.body);
+            });
+        }
+    }
+
+    fn visit_macro(&mut self, m: &'ast syn::Macro) {
+        // format!/println!/vec!/assert!/write!...: arguments are ordinary expressions
+        use syn::punctuated::Punctuated;
+        if let Ok(args) = m.parse_body_with(Punctuated::<syn::Expr, syn::Token![,]>::parse_terminated) {
+            for a in args.iter() {
+                // the parsed expressions do not live as long as 'ast: scan them with a fresh visitor pass
+                let e: syn::Expr = a.clone();
+                scan_detached(self, &e);
+            }
+        }
+    }
+
+    fn visit_expr_closure(&mut self, c: &'ast syn::ExprClosure) {
+        self.with_scope(|s| {
+            for p in &c.inputs {
+                s.bind(p, &Ty::unknown());
+            }
+            s.visit_expr(&c.body);
+        });
+    }
+}
+
+fn scan_detached(sc: &mut Scanner<'_>, e: &syn::Expr) {
+    sc.visit_expr(e);
+}
+
+fn rs_files(dir: &Path, out: &mut Vec<PathBuf>) {
+    let Ok(rd) = std::fs::read_dir(dir) else { return };
+    let mut es: Vec<PathBuf> = rd.flatten().map(|e| e.path()).collect();
+    es.sort();
+    for p in es {
+        if p.is_dir() {
+            let n = p.file_name().and_then(|s| s.to_str()).unwrap_or("");
+            if n == "tests" || n == "snapshots" {
+                continue;
+            }
+            rs_files(&p, out);
+        } else if p.extension().is_some_and(|e| e == "rs") {
+            let n = p.file_name().and_then(|s| s.to_str()).unwrap_or("");
+            if n == "tests.rs" || n.ends_with("_tests.rs") {
+                continue;
+            }
+            out.push(p);
+        }
+    }
+}
+
+fn jstr(s: &str) -> String {
+    serde_json::Value::String(s.to_string()).to_string()
+}
+
+fn scan(repo: &str) -> i32 {
+    let root = Path::new(repo);
+    let mut type_files = vec![];
+    for d in ["src", "crates/incan_syntax/src"] {
+        rs_files(&root.join(d), &mut type_files);
+    }
+    let mut parsed: Vec<(String, syn::File)> = vec![];
+    for p in &type_files {
+        let rel = p.strip_prefix(root).unwrap_or(p).to_string_lossy().to_string();
+        let Ok(text) = std::fs::read_to_string(p) else { continue };
+        match syn::parse_file(&text) {
+            Ok(f) => parsed.push((rel, f)),
+            Err(e) => {
+                println!("{{\"error\":{},\"file\":{}}}", jstr(&e.to_string()), jstr(&rel));
+            }
+        }
+    }
+    let mut t = Tables::default();
+    for (rel, f) in &parsed {
+        t.add_items(rel, &f.items, None);
+    }
+    let mut all: Vec<Site> = vec![];
+    for (rel, f) in &parsed {
+        if !(rel.starts_with("src/frontend/") || rel.starts_with("src/backend/") || rel.starts_with("src/cli/")) {
+            continue;
+        }
+        let mut sc = Scanner {
+            t: &t,
+            file: rel.clone(),
+            self_ty: None,
+            func: String::new(),
+            env: vec![HashMap::new()],
+            sites: vec![],
+            followers: vec![],
+            let_var: vec![],
+        };
+        sc.visit_file(f);
+        all.extend(sc.sites);
+    }
+    // number duplicates inside one function
+    let mut counts: BTreeMap<(String, String, String, String), usize> = BTreeMap::new();
+    for s in &all {
+        let k = (s.file.clone(), s.func.clone(), s.recv.clone(), s.kind.clone());
+        let n = counts.entry(k).or_insert(0);
+        *n += 1;
+        println!(
+            "{{\"file\":{},\"fn\":{},\"recv\":{},\"kind\":{},\"n\":{},\"line\":{},\"ambiguous\":{},\"sorted_after\":{}}}",
+            jstr(&s.file),
+            jstr(&s.func),
+            jstr(&s.recv),
+            jstr(&s.kind),
+            n,
+            s.line,
+            s.ambiguous,
+            s.sorted_after
+        );
+    }
+    0
+}
+
+pub fn run(args: &[String]) {
+    match args.first().map(|s| s.as_str()).unwrap_or("") {
+        "scan" => {
+            let repo = args.get(1).cloned().unwrap_or_else(|| "/repo".to_string());
+            std::process::exit(scan(&repo));
+        }
+        "cli" => cli(&args[1..]),
+        other => {
+            eprintln!("c12: unknown mode {:?} (scan|cli)", other);
+            std::process::exit(2);
+        }
+    }
 }
